@@ -36,7 +36,8 @@ ASSUMPTIONS = [
     "generated (pytype documents per-instance tracking only)",
 ]
 
-NONTRIVIAL = {"branch-different-kinds", "conditional-return",
+NONTRIVIAL = {"type-dispatch", "bool-op-value", "truthiness",
+              "branch-different-kinds", "conditional-return",
               "override-different-kind", "isinstance", "none-test", "try",
               "attribute-set-from-outside", "multiple-inheritance",
               "list-mutation", "dict-mutation"}
@@ -299,6 +300,56 @@ def outer():
   def inner(): return b"b"
   return inner
 fn = outer(); res = fn()
+""",
+]
+
+
+FIXED += [
+    # call results must not be shared between equal-hash constants
+    """def pick(flag):
+  if isinstance(flag, bool):
+    return "flag"
+  return 2.5
+a = pick(1)
+b = pick(True)
+def wrap(k):
+  return [k]
+c = wrap("k")
+d = wrap(b"k")
+e = pick(0)
+f = pick(False)
+""",
+    # truthiness of instances: __len__ / __bool__ found late in the MRO
+    """class Tagged:
+  tag = "t"
+class Sized:
+  def __init__(self, n):
+    self.n = n
+  def __len__(self):
+    return self.n
+class Box(Tagged, Sized):
+  pass
+x = 1 if Box(0) else "empty"
+y = Box(0) or None
+z = Box(2) and 3.5
+class Flag:
+  def __bool__(self):
+    return False
+class Sub(Tagged, Flag):
+  pass
+w = Sub() or b"no"
+""",
+    # isinstance with numeric promotion must not be folded
+    """def describe(n):
+  if isinstance(n, float):
+    return n
+  return str(n)
+p = describe(7)
+q = describe(7.0)
+def num(n):
+  return n if isinstance(n, (str, complex)) else None
+r = num(3)
+s = num(2j)
 """,
 ]
 
